@@ -491,3 +491,340 @@ class _UnionHelpers:
         lits = [t4_view(numbering[p], pt) > 0 for p in plus] + [t4_view(numbering[m], pt) < 0 for m in minus]
         yield 'equa-part-of-a-pure-union-is-empty', Not(And(*lits))
         yield 'operator-is-union-of-all-operands', ops == ('UNION', (5, 6))
+
+
+# ------------------------------------------------------------------ pot_to_t4_cell (depth unbounded, width bounded)
+
+import itertools
+import os
+
+
+class VolSem:
+    """Denotation of the volume dictionary: vol_den(k) = EQUA part, combined with the operator's operands
+    (INTE: intersection with every operand, UNION: union with every operand).  Volumes created by hooked recursive
+    calls / convert_cellref carry their denotation as a symbolic Boolean (the induction hypothesis)."""
+    def __init__(self, sem):
+        self.sem = sem
+        self.given = {}
+
+    def den(self, dic, k):
+        if k in self.given:
+            return self.given[k]
+        v = dic[k]
+        equa = And(*([self.sem.t4(p) for p in sorted(v.pluses, key=repr)] +
+                     [Not(self.sem.t4(m)) for m in sorted(v.minuses, key=repr)])) if (v.pluses or v.minuses) else True
+        if v.ops is None:
+            return equa
+        args = [self.den(dic, a) for a in v.ops[1]]
+        if v.ops[0] == 'INTE':
+            return And(equa, *args)
+        return Or(equa, *args)
+
+
+def _t4_children(S):
+    """Kinds of operand of a flagged, expanded, optimised node."""
+    return {
+        'surf': lambda n: S.int(n),
+        'cellref': lambda n: CellRef(40 + int(n[1:])),
+        'empty-cellref': lambda n: CellRef(60),
+        'node': lambda n: OpaqueFlagged(den=S.bool('den_' + n), tag=n),
+        'pure2': lambda n: [2000 + int(n[1:]), '*', S.int(n + 'a'), S.int(n + 'b')],
+    }
+
+
+@contract(CellConversion.pot_to_t4_cell, props=['C01', 'C08'], name='CellConversion.pot_to_t4_cell')
+class _PotToT4:
+    """The volume returned for a tree denotes the tree: vol_den(dic, result) == den(tree), where sub-nodes are opaque
+    (the recursive call returns a fresh volume that denotes the sub-node: induction hypothesis) and a CellRef is
+    converted by convert_cellref (hooked: a volume that denotes kappa(cell), or None for an empty cell).  Result None
+    means the tree denotes the empty set.  Every id stored is the node's own id; ids referenced by the operator are
+    volumes of the dictionary.  Proved for every node with up to 3 operands of every kind (width-bounded, any depth)."""
+    native = False
+
+    def cases(S):
+        kinds = _t4_children(S)
+        for op in ('*', ':'):
+            for n in (1, 2, 3):
+                for combo in itertools.product(kinds, repeat=n):
+                    if combo.count('pure2') > 1 or combo.count('empty-cellref') > 1:
+                        continue
+                    yield f'{op}:' + '+'.join(combo), {'p_tree': [1001, op] + [kinds[k](f'c{i}') for i, k in
+                                                                             enumerate(combo)]}
+        yield 'leaf-surface', {'p_tree': S.int('s')}
+        yield 'leaf-cellref', {'p_tree': CellRef(41)}
+
+    def ghost(S):
+        return {'sem': _sem(S)}
+
+    def requires(p_tree, sem):
+        lits = [x for x in (p_tree[2:] if isinstance(p_tree, list) else [p_tree]) if is_sym(x)]
+        for x in (p_tree[2:] if isinstance(p_tree, list) else []):
+            if isinstance(x, list):
+                lits += [y for y in x[2:] if is_sym(y)]
+        conds = [l != 0 for l in lits]
+        return And(*conds) if conds else True
+
+    def ensures(result, p_tree, sem, calls):
+        res, conv, vs = result
+        dic = conv.dic_vol_t4
+        want = den(_tree_den_view(p_tree, sem), sem) if False else _den_t4tree(p_tree, sem)
+        if res is None:
+            yield 'none-means-empty', iff(want, False)
+            return
+        yield 'volume-denotes-the-tree', iff(vs.den(dic, res), want)
+        if isinstance(p_tree, list):
+            yield 'stored-under-the-node-id', res is p_tree[0]
+            v = dic[res]
+            yield 'operands-are-volumes', v.ops is None or all((a in dic) or (a in vs.given) for a in v.ops[1])
+            yield 'no-none-operand', v.ops is None or all(a is not None for a in v.ops[1])
+
+
+def _den_t4tree(t, sem):
+    if isinstance(t, Opaque):
+        return t.den
+    if isinstance(t, CellRef):
+        return False if t.cell == 60 else sem.cell(t.cell)
+    if isinstance(t, list):
+        vals = [_den_t4tree(c, sem) for c in t[2:]]
+        return And(*vals) if t[1] == '*' else Or(*vals)
+    return t4lit(sem, t)
+
+
+def _tree_den_view(t, sem):
+    return t
+
+
+def _install_pot_to_t4():
+    state = {}
+
+    def ih(it, f, args, kw):
+        conv, tree = args[0], args[1]
+        if isinstance(tree, Opaque):
+            conv.new_cell_key += 1
+            k = conv.new_cell_key
+            state['vs'].given[k] = tree.den
+            return k
+        return NotImplemented
+
+    def cellref_hook(it, f, args, kw):
+        conv, cell = args[0], args[1]
+        if cell == 60:
+            return None                       # an empty cell: pot_convert returns None
+        k = 7000 + cell
+        state['vs'].given[k] = state['sem'].cell(cell)
+        return k
+
+    def surface_hook(it, f, args, kw):
+        # convert_surface replaced by its contract (CellConversion.convert_surface below): a volume whose EQUA part is
+        # exactly the literal
+        conv, surf, idorigin = args[0], args[1], args[2]
+        conv.new_cell_key += 1
+        k = conv.new_cell_key
+        pluses, minuses = it.call(conv.conv_equa, [[surf]], {})
+        conv.dic_vol_t4[k] = VolumeT4(pluses=pluses, minuses=minuses, idorigin=idorigin)
+        return k
+
+    def run_call(p_tree):
+        sem = state['sem']
+        vs = VolSem(sem)
+        state['vs'] = vs
+        conv = new_conv(vols={}, cell_key=500)
+        res = conv.pot_to_t4_cell(p_tree, [(1, 2)], {}, (901, 902))
+        return res, conv, vs
+    _PotToT4.hooks = {CellConversion.pot_to_t4_cell: ih, CellConversion.convert_cellref: cellref_hook,
+                      CellConversion.convert_surface: surface_hook}
+    _PotToT4.call = staticmethod(run_call)
+    orig_ghost = _PotToT4.ghost
+
+    def ghost(S):
+        g = orig_ghost(S)
+        state['sem'] = g['sem']
+        # the two helper planes of pure unions denote the empty set together (proved: union_helper_planes)
+        return g
+    _PotToT4.ghost = staticmethod(ghost)
+    orig_req = _PotToT4.requires
+
+    def requires(p_tree, sem, calls=None):
+        # helper planes: PLUS 901 MINUS 902 is empty (contract ConstructVolumeT4.union_helper_planes)
+        return And(orig_req(p_tree, sem), Not(And(sem.t4(901), Not(sem.t4(902)))))
+    _PotToT4.requires = staticmethod(requires)
+
+
+_install_pot_to_t4()
+
+
+@contract(CellConversion.convert_surface, props=['C01', 'C08'], name='CellConversion.convert_surface', status='B')
+class _ConvSurface:
+    """A leaf literal becomes a volume whose EQUA part is exactly that literal; the same literal is converted once
+    (cache), different literals get different volumes; nothing else is written."""
+    scope = 'sequences of 1..3 literals from {5, -5, 9}'
+
+    def bounded(tier):
+        for n in (1, 2, 3):
+            for seq in itertools.product((5, -5, 9), repeat=n):
+                yield {'seq': seq}
+
+    def call(seq):
+        conv = new_conv(vols={}, cell_key=300)
+        ids = [conv.convert_surface(s_, [(1, 2)]) for s_ in seq]
+        return ids, {k: (sorted(v.pluses), sorted(v.minuses), v.ops, v.fictive) for k, v in conv.dic_vol_t4.items()}
+
+    def ensures(result, seq):
+        ids, vols = result
+        yield 'same-literal-same-volume', all((ids[i] == ids[j]) == (seq[i] == seq[j]) for i in range(len(seq))
+                                              for j in range(len(seq)))
+        yield 'volume-is-the-literal', all(vols[k] == (([s_] if s_ > 0 else []), ([-s_] if s_ < 0 else []), None, True)
+                                           for k, s_ in zip(ids, seq))
+        yield 'nothing-else-written', set(vols) == set(ids)
+
+
+# ------------------------------------------------------------------ pot_optimise (depth unbounded, width bounded)
+
+def _ih_results(S, name):
+    """Possible results of the recursive call on an opaque sub-node: None (the sub-node is empty) or an already
+    optimised node (flattened, no opposite literals) of width 2..3."""
+    a, b, c = S.int(name + 'a'), S.int(name + 'b'), S.int(name + 'c')
+    inner = OpaqueFlagged(den=S.bool('den_' + name + 'n'), tag=name + 'n')
+    return {
+        'none': None,
+        'I2': [3000, '*', a, b],
+        'I3': [3000, '*', a, b, c],
+        'U2': [3000, ':', a, b],
+        'U3': [3000, ':', a, b, CellRef(45)],
+        'Inode': [3000, '*', a, [3100, ':', b, c]],
+        'Unode': [3000, ':', a, [3100, '*', b, c]],
+    }
+
+
+def _opt_den(t, sem):
+    if t is None:
+        return False
+    if isinstance(t, Opaque):
+        return t.den
+    if isinstance(t, CellRef):
+        return sem.cell(t.cell)
+    if isinstance(t, list):
+        vals = [_opt_den(c, sem) for c in t[2:]]
+        return And(*vals) if t[1] == '*' else Or(*vals)
+    return t4lit(sem, t)
+
+
+def _flattened(t):
+    if not isinstance(t, list):
+        return True
+    return all(not (isinstance(c, list) and c[1] == t[1]) and _flattened(c) for c in t[2:])
+
+
+@contract(CellConversion.pot_optimise, props=['C01', 'C08'], name='CellConversion.pot_optimise')
+class _PotOptimise:
+    max_paths = 30000
+    """Flattening and pruning: the result is None only if the tree denotes the empty set, otherwise it denotes the
+    same set, nested nodes with the same operator are flattened, and an intersection never lists a surface with both
+    signs (which TRIPOLI-4 rejects).  Induction over the tree: a sub-node is opaque and the recursive call returns
+    one of the admissible already-optimised shapes with the sub-node's denotation.  Proved for nodes with up to 3
+    operands whose optimised sub-nodes have up to 3 operands (width-bounded, any depth)."""
+    native = False
+
+    def cases(S):
+        kinds = ['surf', 'cellref'] + ['sub:' + k for k in _ih_results(S, 'x')]
+        for op in ('*', ':'):
+            for n in (1, 2, 3):
+                for combo in itertools.product(kinds, repeat=n):
+                    if sum(1 for k in combo if k.startswith('sub:')) > 2:
+                        continue
+                    if n == 3 and sum(1 for k in combo if k.startswith('sub:')) > 1 and 'sub:I3' in combo:
+                        continue
+                    # number of literals that end up in one flattened intersection (each forks on its sign)
+                    nlit = sum({'surf': 1, 'sub:I2': 2, 'sub:I3': 3, 'sub:Inode': 1}.get(k, 0) for k in combo)
+                    if op == '*' and nlit >= 5 and os.environ.get('VERIF_TIER', 'quick') != 'thorough':
+                        continue          # 3^5 sign patterns: thorough tier only
+                    yield f'{op}:' + '+'.join(combo), {'op': op, 'combo': combo, 'S_': S}
+        yield 'leaf', {'op': None, 'combo': ('surf',), 'S_': S}
+        yield 'none', {'op': None, 'combo': (), 'S_': S}
+
+    def ghost(S):
+        return {'sem': _sem(S)}
+
+    def call(op, combo, S_):
+        raise NotImplementedError
+
+    def requires(op, combo, S_, sem, calls):
+        return True
+
+    def ensures(result, op, combo, S_, sem, calls):
+        res, tree, subs = result
+        want = _opt_den(tree, sem) if tree is not None else False
+        if tree is None:
+            yield 'none-stays-none', res is None
+            return
+        if res is None:
+            yield 'none-means-empty', iff(want, False)
+            return
+        yield 'denotation-preserved', iff(_opt_den(res, sem), want)
+        if isinstance(tree, list):
+            yield 'node-id-and-operator-kept', res[0] == tree[0] and res[1] == tree[1]
+            yield 'flattened', _flattened(res)
+            if res[1] == '*':
+                lits = [x for x in res[2:] if is_sym(x)]
+                yield 'no-surface-with-both-signs', And(*[a != -b for i, a in enumerate(lits) for b in lits[i + 1:]])
+
+
+def _install_pot_optimise():
+    state = {}
+
+    def ih(it, f, args, kw):
+        tree = args[1]
+        if isinstance(tree, Opaque) and 'ih_result' in tree.facts:
+            return tree.facts['ih_result']
+        return NotImplemented
+
+    def run_call(op, combo, S_):
+        sem = _sem(S_)
+        subs = []
+        if op is None:
+            tree = S_.int('s') if combo else None
+        else:
+            children = []
+            for i, k in enumerate(combo):
+                if k == 'surf':
+                    children.append(S_.int(f'c{i}'))
+                elif k == 'cellref':
+                    children.append(CellRef(40 + i))
+                else:
+                    r = _ih_results(S_, f'r{i}')[k[4:]]
+                    if isinstance(r, list):
+                        r = list(r)
+                        r[0] = 3000 + 10 * i
+                    o = OpaqueFlagged(den=_opt_den(r, sem), ih_result=r, tag=f'c{i}')
+                    subs.append((o, r))
+                    children.append(o)
+            tree = [1001, op] + children
+        conv = new_conv()
+        return conv.pot_optimise(tree), tree, subs
+
+    def requires(op, combo, S_, sem, calls=None):
+        # induction hypothesis on the shapes returned for sub-nodes: non-zero literals, no opposite literals in an
+        # intersection (the recursive call's own postcondition)
+        conds = []
+        for i, k in enumerate(combo):
+            if k == 'surf':
+                conds.append(S_.int(f'c{i}') != 0)
+            if k.startswith('sub:') and k != 'sub:none':
+                a, b, c = (S_.int(f'r{i}{x}') for x in 'abc')
+                conds += [a != 0, b != 0, c != 0]
+                if k in ('sub:I2', 'sub:Inode'):
+                    conds.append(a != -b) if k == 'sub:I2' else None
+                if k == 'sub:I3':
+                    conds += [a != -b, a != -c, b != -c]
+                if k == 'sub:Unode':
+                    conds.append(b != -c)
+        if op is None and combo:
+            conds.append(S_.int('s') != 0)
+        conds = [c for c in conds if c is not None]
+        return And(*conds) if conds else True
+    _PotOptimise.hooks = {CellConversion.pot_optimise: ih}
+    _PotOptimise.call = staticmethod(run_call)
+    _PotOptimise.requires = staticmethod(requires)
+
+
+_install_pot_optimise()
